@@ -796,6 +796,8 @@ var wave10Witnesses14 = []Witness{
 }
 
 var errPathWitnesses = []Witness{
+	{Name: "benign-version-error-tests-merged-into-one-failure-return", Benign: true, Doc: "benign patch N10_2 (the part that concerns R-ERRDROP)", Edits: []Edit{
+		{File: "operator.go", Old: "			if err != nil {\n				return nil, OpExecError(modeNames[c.mode], fmt.Errorf(\"version layout error, %s\", s))\n			}\n			if v >= 10000 {\n				return nil, OpExecError(modeNames[c.mode], fmt.Errorf(\"version layout error, %s\", s))\n			}", New: "			if err != nil || v >= 10000 {\n				return nil, OpExecError(modeNames[c.mode], fmt.Errorf(\"version layout error, %s\", s))\n			}"}}},
 	{Name: "missing-close-paren-is-tested-and-ignored", Rule: "R-ERRDROP", Doc: "guard-deletion mutant of the mutation run (ifdel) in its source form", Edits: []Edit{
 		{File: "parser.go", Old: "	err = p.eat(rParen)\n	if err != nil {\n		return nil, err\n	}\n\n	return p.buildParentNode(car, children)", New: "	err = p.eat(rParen)\n	if err != nil {\n		p.idx = len(p.tokens)\n	}\n\n	return p.buildParentNode(car, children)"}}},
 	{Name: "benign-close-paren-error-test-inverted", Benign: true, Edits: []Edit{
